@@ -75,9 +75,14 @@ def over_time(ctx, share=1.0):
     budget even on a loaded machine; the families stop generating new cases once it has passed"""
     import time
     limit = (140.0 if ctx.tier == "quick" else 900.0) * (2.0 if ctx.searching else 1.0) * share
-    if time.time() - ctx.t0 > limit:
+    # measured from the first call, i.e. from the start of check(): the Lean stage before it (minutes on a cold cache in a
+    # freshly restored sandbox) must not eat the budget of the correspondence — it made a fresh run do a tenth of the work
+    start = getattr(ctx, "_c01_start", None)
+    if start is None:
+        start = ctx._c01_start = time.time()
+    if time.time() - start > limit:
         if not getattr(ctx, "_time_noted", False):
-            ctx.note(f"time budget reached after {time.time() - ctx.t0:.0f}s: remaining generated cases skipped")
+            ctx.note(f"time budget reached after {time.time() - start:.0f}s: remaining generated cases skipped")
             ctx._time_noted = True
         ctx.count("cases_skipped_for_time")
         return True
@@ -2628,6 +2633,7 @@ def generate(ctx):
 
 
 def check(ctx):
+    over_time(ctx)            # starts the soft-deadline clock at the beginning of the correspondence
     check_binary(ctx, ctx.fork("binary"), ctx.budget(60, 300))
     check_lifecycle(ctx, ctx.fork("life-cycle"), ctx.budget(60, 600))
     check_geometric(ctx, ctx.fork("geometric"), ctx.budget(95, 800))
